@@ -1,5 +1,6 @@
 HOOK_COMMITS = ['d72f86d (H1 small arena for memory managers)', '62f5160 (H5 node header start size)', 'b191b11 (H6 hash_stream word log)',
-                '9706867+cfc3b0e (H4 small initial compute-table hash table; used only by the exploratory C07 component harness, see DESIGN.md 11.3)']
+                '9706867 (H4 small initial compute-table hash table; used only by the exploratory C07 component harness, see DESIGN.md 11.3)',
+                'cfc3b0e (H4 refinement)', 'd40419b (H4 made add-only again)']
 L3 = ('needs whole-library execution (initialize, real forests, operations, compute tables). Measured: the ll2c+CBMC encoding of the whole library '
       '(578-705 functions after pruning) does not get through symbolic execution of library/forest set-up within 50 min (registries and tables of '
       '1024 entries, libstdc++ container code, imprecise virtual dispatch), see DESIGN.md 11.3; ')
